@@ -89,12 +89,14 @@ where
     ResItem: Unpin + Send + Clone,
 {
     pub async fn request(&mut self, req: ReqItem) -> Result<ResItem> {
-        let mut attempts = self.backoff_strategy.clone().into_iter();
-
         loop {
             match self.stream.request(req.clone()).await {
                 Ok(res) => return Ok(res),
-                Err(err) if is_recoverable_error(&err) => self.try_reconnect(&mut attempts).await?,
+                Err(err) if is_recoverable_error(&err) => {
+                    // Every outage gets the full retry budget
+                    let mut attempts = self.backoff_strategy.clone().into_iter();
+                    self.try_reconnect(&mut attempts).await?
+                }
                 Err(err) => {
                     logging::keep_alive::unrecoverable_error(&err);
                     return Err(err);
@@ -115,15 +117,17 @@ where
     ResItem: Unpin + Send,
 {
     pub async fn listen(&mut self) -> Result<()> {
-        let mut attempts = self.backoff_strategy.clone().into_iter();
-
         loop {
             match self.stream.listen().await {
                 Err(err) if !is_recoverable_error(&err) => {
                     logging::keep_alive::unrecoverable_error(&err);
                     return Err(err);
                 }
-                _ => self.try_reconnect(&mut attempts).await?,
+                _ => {
+                    // Every outage gets the full retry budget, however many were survived before
+                    let mut attempts = self.backoff_strategy.clone().into_iter();
+                    self.try_reconnect(&mut attempts).await?
+                }
             };
         }
     }
